@@ -1072,7 +1072,7 @@ func c15R4(p *Prog, r *Report) {
 	// stored id is conv.PackageID()
 	info := fi.Pkg.TypesInfo
 	okStore := false
-	ast.Inspect(fi.Decl, func(n ast.Node) bool {
+	p.inspectRegion("generator.(*fileManager).Get", func(_ *FuncInfo, n ast.Node) bool {
 		cl, ok := n.(*ast.CompositeLit)
 		if !ok || !isNamed(info.TypeOf(cl), modPath+"/generator", "managedFile") {
 			return true
@@ -1108,12 +1108,11 @@ func c15R5(p *Prog, r *Report) {
 			continue
 		}
 		n++
-		encl := "<package init>"
+		site := "<package init>/jen." + fn.Name()
 		if cs.Encl != nil {
-			encl = cs.Encl.Name()
+			site = p.anchorFor(cs.Encl, []string{"generator.(*fileManager).Get"}) + "/jen." + fn.Name()
 		}
-		site := encl + "/jen." + fn.Name()
-		if encl != "generator.(*fileManager).Get" {
+		if cs.Encl == nil || !p.inRegion("generator.(*fileManager).Get", cs.Encl) {
 			r.Bad(site, p.PosStr(cs.Call.Pos()), "an output file is created outside fileManager.Get (bypasses header, package agreement and path keying)")
 			continue
 		}
@@ -1250,7 +1249,16 @@ func c16R1(p *Prog, r *Report) {
 	isJen := func(name string) func(*types.Func) bool {
 		return func(o *types.Func) bool { return objPkgPath(o) == jenPath && o.Name() == name }
 	}
-	news := callsIn(sf, false, func(o *types.Func) bool { return objPkgPath(o) == jenPath && strings.HasPrefix(o.Name(), "NewFile") })
+	isNewFile := func(o *types.Func) bool { return objPkgPath(o) == jenPath && strings.HasPrefix(o.Name(), "NewFile") }
+	// the file may be created, given its headers and returned by a private helper of Get: analyse that function
+	if len(callsIn(sf, false, isNewFile)) == 0 {
+		for _, rf := range p.Region("generator.(*fileManager).Get") {
+			if hf := p.SSAFunc(rf); hf != nil && len(callsIn(hf, false, isNewFile)) > 0 {
+				sf = hf
+			}
+		}
+	}
+	news := callsIn(sf, false, isNewFile)
 	hdrs := callsIn(sf, false, isJen("HeaderComment"))
 	var gen, build []ssa.CallInstruction
 	for _, h := range hdrs {
@@ -1383,7 +1391,7 @@ func c16R1(p *Prog, r *Report) {
 		}
 		switch fn.Name() {
 		case "HeaderComment", "PackageComment", "CgoPreamble":
-			if cs.Encl.Name() != "generator.(*fileManager).Get" {
+			if !p.inRegion("generator.(*fileManager).Get", cs.Encl) {
 				r.Bad(cs.Encl.Name()+"/jen."+fn.Name(), p.PosStr(cs.Call.Pos()), "file header manipulated outside fileManager.Get")
 			} else if fn.Name() != "HeaderComment" {
 				r.Bad(cs.Encl.Name()+"/jen."+fn.Name(), p.PosStr(cs.Call.Pos()), "unexpected header construct")
@@ -1578,12 +1586,31 @@ func c16R4(p *Prog, r *Report, id string) {
 		if !isFunc(cs.Callee, "golang.org/x/tools/go/packages", "", "Load") || cs.Encl == nil {
 			continue
 		}
-		site := cs.Encl.Name() + "/packages.Load config"
+		site := p.anchorFor(cs.Encl, []string{"comments.ParseDocs", "pkgload.(*PackageLoader).load"}) + "/packages.Load config"
 		pos := p.PosStr(cs.Call.Pos())
 		info := cs.Pkg.TypesInfo
+		// the statement-shape analysis below is tried first; what it cannot recognise is decided on the values
+		// that reach the config (data flow), so a flag list built as a literal, via a local or in a helper is fine
+		badOr := func(msg string) {
+			if sf := p.SSAFunc(cs.Encl); sf != nil {
+				var ld ssa.CallInstruction
+				allInstrs(sf, true, func(in ssa.Instruction) {
+					if c, ok := in.(ssa.CallInstruction); ok && in.Pos() == cs.Call.Lparen {
+						ld = c
+					}
+				})
+				if ld != nil {
+					if ok, _ := tagsWiringSSA(p, ld); ok {
+						r.OK(site, pos, "every value reaching BuildFlags is nil or (\"-tags\", <unmodified tags>) built under tags != \"\" only (data flow)")
+						return
+					}
+				}
+			}
+			r.Bad(site, pos, msg)
+		}
 		cfgID, ok := ast.Unparen(cs.Call.Args[0]).(*ast.Ident)
 		if !ok {
-			r.Bad(site, pos, "config argument is not a local variable")
+			badOr("config argument is not a local variable")
 			continue
 		}
 		cfgObj := info.ObjectOf(cfgID)
@@ -1620,7 +1647,7 @@ func c16R4(p *Prog, r *Report, id string) {
 			return true
 		})
 		if tagsExpr == nil || nAssign != 1 {
-			r.Bad(site, pos, "BuildFlags are not set by exactly one `append(cfg.BuildFlags, \"-tags\", tags)`: the loader would not see (all of) the build tags")
+			badOr("BuildFlags are not set by exactly one `append(cfg.BuildFlags, \"-tags\", tags)`: the loader would not see (all of) the build tags")
 			continue
 		}
 		// tagsExpr must be a plain parameter or field BuildTags (unmodified)
@@ -1637,7 +1664,7 @@ func c16R4(p *Prog, r *Report, id string) {
 			tagObj = info.ObjectOf(sel.Sel)
 		}
 		if !plain {
-			r.Bad(site, pos, "the value after \"-tags\" ("+exprString(tagsExpr)+") is not the unmodified configured tag string")
+			badOr("the value after \"-tags\" ("+exprString(tagsExpr)+") is not the unmodified configured tag string")
 			continue
 		}
 		// guard
@@ -1668,12 +1695,12 @@ func c16R4(p *Prog, r *Report, id string) {
 			}
 		}
 		if !okGuard || nGuards != 1 {
-			r.Bad(site, pos, "the -tags flag is not guarded by exactly `tags != \"\"`")
+			badOr("the -tags flag is not guarded by exactly `tags != \"\"`")
 			continue
 		}
 		// the append must precede the Load call in the same function (position order suffices within straight code)
 		if appendStmt.Pos() > cs.Call.Pos() {
-			r.Bad(site, pos, "BuildFlags are set after packages.Load")
+			badOr("BuildFlags are set after packages.Load")
 			continue
 		}
 		r.OK(site, pos, "BuildFlags += \"-tags\", "+exprString(tagsExpr)+" under != \"\"")
